@@ -400,7 +400,10 @@ struct LoggerTable
     const OneFn* const* one;   // [severity][shape]
     const OpenFn* open;        // [severity]
     const LocalFn* local;      // [severity]: the named form with a local variable
+    const LocalFn* moved;      // [severity]: … moved into another variable half-way
     const int* kind;           // [severity]: 1 smart_stream, 0 null_stream, 2 anything else
+    bool (*will_log)(int);                    // logger::will_log on a record of that severity
+    void (*log)(int, const std::string&);     // logger::log(severity, record with that message)
 };
 """ % ("".join("    case severity_level::%s: return %d;\n" % (n, i) for i, n in enumerate(SEVS)),
        "".join("    case %d: return severity_level::%s;\n" % (i, n) for i, n in enumerate(SEVS))))
@@ -428,8 +431,10 @@ template <int S> struct Mk;
         using type = decltype(L::NAME());                                                           \\
         static type make(const std::string* tag)                                                    \\
         {                                                                                           \\
+            /* the tag argument as std::string or as C string (both string_ref constructors) */     \\
+            if (tag && tag->size() % 2) return L::NAME(tag->c_str());                               \\
             if (tag) return L::NAME(*tag);                                                          \\
-            return L::NAME();                                                                       \\
+            return L::NAME(); /* relies on the default argument */                                  \\
         }                                                                                           \\
     };""")
     for s, n in enumerate(SEVS):
@@ -498,10 +503,35 @@ template <int S> void named_local(const std::string* tag, const Item* it, int n)
     for (int i = 0; i < n; i++) put_item(s, it[i]);
 }
 static const LocalFn k_local[6] = { %s };
+// the same, the stream object moved into another variable half-way:  auto s = L::sev(tag); s << …; auto t = std::move(s); t << …;
+template <int S> void named_moved(const std::string* tag, const Item* it, int n)
+{
+    auto s = Mk<S>::make(tag);
+    int half = (n + 1) / 2;
+    for (int i = 0; i < half; i++) put_item(s, it[i]);
+    auto t = std::move(s);
+    for (int i = half; i < n; i++) put_item(t, it[i]);
+}
+static const LocalFn k_moved[6] = { %s };
+// direct use of the two public static members the streams are built on: will_log(record) and log(severity, record)
+static bool direct_will_log(int sv)
+{
+    Rec r;
+    r.severity() = sev_of_index(sv);
+    return L::will_log(r);
+}
+static void direct_log(int sv, const std::string& msg)
+{
+    Rec r;
+    r.severity() = sev_of_index(sv);
+    r.message() = msg;
+    L::log(sev_of_index(sv), r);
+}
 } // namespace lg%d
 extern const LoggerTable k_logger_%d;
-const LoggerTable k_logger_%d = { "%s/%s/%s", lg%d::NSHAPES, lg%d::k_shape_name, lg%d::k_one, lg%d::k_open, lg%d::k_local, lg%d::k_kind };
-""" % (slot_cases(), ", ".join("&open_slot<%d>" % s for s in range(6)), ", ".join("&named_local<%d>" % s for s in range(6)), i, i, i, f, m, rc, i, i, i, i, i, i))
+const LoggerTable k_logger_%d = { "%s/%s/%s", lg%d::NSHAPES, lg%d::k_shape_name, lg%d::k_one, lg%d::k_open, lg%d::k_local, lg%d::k_moved, lg%d::k_kind, &lg%d::direct_will_log, &lg%d::direct_log };
+""" % (slot_cases(), ", ".join("&open_slot<%d>" % s for s in range(6)), ", ".join("&named_local<%d>" % s for s in range(6)),
+       ", ".join("&named_moved<%d>" % s for s in range(6)), i, i, i, f, m, rc, i, i, i, i, i, i, i, i, i))
     return "\n".join(o) + "\n"
 
 
@@ -682,6 +712,24 @@ static std::string run_case(const std::vector<std::string>& w)
                     for (auto& e : vh::split_on(f[4], ',')) items.push_back(parse_item(e));
                 const std::string* tp = has_tag ? &tag : nullptr;
                 run_in_context(context_of(f[0]), [&]() { k_logger[lg]->local[sv](tp, items.data(), static_cast<int>(items.size())); });
+            }
+            else if (o[0] == 'R' && f.size() == 5 && f[0].size() == 1)
+            {
+                int lg = parse_logger(f[1]);
+                int sv = digit_of(f[2].at(0), 6);
+                std::string tag;
+                bool has_tag = parse_tag(f[3], tag);
+                std::vector<Item> items;
+                if (f[4] != ".")
+                    for (auto& e : vh::split_on(f[4], ',')) items.push_back(parse_item(e));
+                k_logger[lg]->moved[sv](has_tag ? &tag : nullptr, items.data(), static_cast<int>(items.size()));
+            }
+            else if (o[0] == 'D' && f.size() == 4 && f[0].size() == 1)
+            {
+                int lg = parse_logger(f[1]);
+                int sv = digit_of(f[2].at(0), 6);
+                g_ev.push_back(k_logger[lg]->will_log(sv) ? "W1" : "W0");
+                k_logger[lg]->log(sv, vh::unhex(f[3])); // no gate, no filter: log() delivers whatever it is handed
             }
             else if (o[0] == 'N' && f.size() == 4 && f[0].size() == 2)
             {
